@@ -270,7 +270,21 @@ def explore(spec, depth, workers=None, seed=0, budget_s=None, max_states=None, p
     if init_hists:
         frontier = []
         for h in init_hists:
-            r = build(spec, h)
+            # a seeded prefix is executed step by step under the oracle: a violation inside it is a violation
+            r = Run(spec)
+            bad = False
+            for i, ev in enumerate(h):
+                results, vs = r.step(tuple(ev))
+                res.transitions += 1
+                if vs:
+                    for v in vs:
+                        v.history = [list(e) for e in h[:i + 1]]
+                        res.viols.append(v.to_json())
+                    bad = True
+                    break
+            if bad:
+                r.destroy()
+                continue
             d = r.digest()
             r.destroy()
             if d not in seen or not h:
